@@ -43,6 +43,17 @@ def run(ctx):
             m_ok = (ints == [1, 195] or raw == ['c301']) and not o1.params()
             o2 = origin(w, b_[1]['args'][1])
             fp_ok = any(cname(c).endswith('Schema::rabin_fingerprint') for c in o2.calls) or any(a_[0] == 'call' and a_[1].endswith('Schema::rabin_fingerprint') for a_ in o2.atoms)
+            # ... written as returned: no local the bytes pass through is ever borrowed mutably (reversed, patched, ...)
+            from .c20gen import slice_back
+            sl = slice_back(w, b_[1]['args'][1])
+            chain = {l for (bid, l) in sl.locals if bid == w.id}
+            patched = []
+            for xb in sorted(w.live_blocks()):
+                for st_ in w.stmts(xb):
+                    if 'assign' in st_ and st_['rv']['k'] in ('ref', 'rawptr') and st_['rv'].get('mut') and st_['rv']['place']['l'] in chain \
+                            and not w.local_ty(st_['rv']['place']['l']).startswith('&'):
+                        patched.append(st_['rv']['place']['l'])
+            fp_ok = fp_ok and not patched and not o2.has_arith()
             names = deep_call_names(w, b_[1]['args'][1])
             cfg_ok = any(strip_generics(n_).endswith('SerializerConfig::schema') for n_ in names)
             ta, tb = try_edges(w, a[0]), try_edges(w, b_[0])
